@@ -7,7 +7,7 @@
 (* KeepEmptyPlaceholders = TRUE reproduces the pinned revision's               *)
 (* dfa_from_table, which turned the unused placeholder sets of merged states   *)
 (* into an extra state "{}" (deviation TF_EmptyPlaceholderKept).               *)
-EXTENDS DfaUniverse
+EXTENDS DfaUniverse, Steps
 CONSTANT KeepEmptyPlaceholders
 VARIABLES D, ord, table, pc, stage
 vars == <<D, ord, table, pc, stage>>
@@ -27,26 +27,12 @@ PickF == /\ stage = 0 /\ stage' = 1
          /\ UNCHANGED <<table, pc>>
 PickD == /\ stage = 1 /\ stage' = 2
          /\ D' \in DfasWithF(D.F)
-         /\ table' = [p \in Pairs |-> (ord[p[1]] \in D.F) = (ord[p[2]] \in D.F)]
+         /\ table' = TfInit(D', ord)
          /\ pc' = "sweep"
          /\ UNCHANGED ord
 
-(* the strict pairs in the order of itertools.combinations(range(n), 2) *)
-RECURSIVE PairList(_, _)
-PairList(i, j) == IF i >= n THEN <<>>
-                  ELSE IF j > n THEN PairList(i + 1, i + 2)
-                  ELSE <<<<i, j>>>> \o PairList(i, j + 1)
-
-RECURSIVE SweepFrom(_, _)
-SweepFrom(t, ps) ==
-  IF ps = <<>> THEN t
-  ELSE LET p == Head(ps)
-           hit == t[p] /\ \E a \in S :
-                     ~t[Lo(Idx(Delta(D, ord[p[1]], a)), Idx(Delta(D, ord[p[2]], a)))]
-       IN SweepFrom(IF hit THEN [t EXCEPT ![p] = FALSE] ELSE t, Tail(ps))
-
 Sweep == /\ pc = "sweep"
-         /\ LET t2 == SweepFrom(table, PairList(1, 2))
+         /\ LET t2 == TfSweep(D, ord, table)
             IN /\ table' = t2
                /\ pc' = IF t2 = table THEN "assemble" ELSE "sweep"
          /\ UNCHANGED <<D, ord, stage>>
@@ -55,13 +41,7 @@ Next == PickF \/ PickD \/ Sweep
 Spec == Init /\ [][Next]_vars /\ WF_vars(Next)
 
 (* dfa_from_table *)
-RECURSIVE Groups(_, _, _)
-Groups(i, R, acc) ==
-  IF i > n THEN acc
-  ELSE IF ord[i] \in R THEN Groups(i + 1, R, Append(acc, {}))
-  ELSE LET g == {ord[i]} \cup {ord[j] : j \in {j \in (i + 1)..n : table[<<i, j>>]}}
-       IN Groups(i + 1, R \cup g, Append(acc, g))
-Qlist == Groups(1, {}, <<>>)
+Qlist == TfGroups(ord, table, 1, {}, <<>>)
 BlockWith(q) == CHOOSE B \in ToSet(Qlist) : q \in B
 Used == IF KeepEmptyPlaceholders THEN 1..n ELSE {i \in 1..n : Qlist[i] # {}}
 M == [Q |-> {Qlist[i] : i \in Used}, S |-> S,
